@@ -82,7 +82,13 @@ func ZZ_C09_k7_insert_nonregression() {
 	kn := [...]string{"k0", "k1", "k2", "k3"}
 	mu := newRegionIndexMu(nil)
 	for step := 0; step < n; step++ {
-		id := uint64(1 + zzChoice(idn[step], 3))
+		// ids matter only through equality: the k-th insert picks among the ids
+		// used so far and one fresh id (symmetry reduction of the pool of 3)
+		nid := step + 1
+		if nid > 3 {
+			nid = 3
+		}
+		id := uint64(1 + zzChoice(idn[step], nid))
 		ver := zzU64(vern[step])
 		conf := zzU64(confn[step])
 		s := zzBytes(sn[step], klen)
